@@ -27,6 +27,24 @@ CHECKS = {
     "C09": dict(text="real apply_gbs for N = 2..3 (5 thorough) symbolic grains: strict threshold mask, exact reference orientation for floored grains, floor chi/N before renormalisation, proportionality, sum 1, lower bound chi/(N(1+chi)), order preservation, chi = 0 identity, ties; call site in the real update: reference is the start-of-update snapshot object at every solver step, stored snapshot equals the last GBS output.",
                 note="exact reals; N bounded; LSODA stub as in C01",
                 tech="symbolic execution of real source + SMT (z3)"),
+    "C02": dict(text="each real helper of the grain kernel (CRSS rows, slip invariants, slip-rate ratios for all 24 activity orders x 5 fabrics, Schmid tensor, least-squares softest slip rate with its 1e-15 guard, lattice spin, dislocation-density energy) on free symbolic arguments equals the reference model written from the cited papers; the real kernel with recording stubs wires the stages as the model prescribes on every path; real derivatives adds the migration law and the 0.3 yielding factor.",
+                note="exact reals; pow/exp uninterpreted (same symbols on both sides); ties in activity excluded by strict path conditions; JIT-vs-interpreter agreement is sampled (40/400 inputs), not decided",
+                tech="symbolic execution of real source + SMT (z3), differential check against a reference model, compositional contracts"),
+    "C04": dict(text="staged on the real helpers with Q = R(r) over all unit quaternions and the three lattice two-folds: invariants, slip rates (sign vector), Schmid tensor, softest rate (via its proved characterisation), spin, energy each obey their transformation law; kernel wiring (C02 glue); real rhs of the update for (L,F,A) vs (QLQ^T, QF, AQ^T) with the kernel replaced by its proved contract: F block and orientation rates co-rotate, volume rates unchanged.",
+                note="exact reals; spectral radius invariance under conjugation assumed (environment); integrated textures follow for the exact flow only (LSODA's elementwise atol is not frame invariant)",
+                tech="symbolic execution of real source + SMT (z3), assume-guarantee staging, polynomial normal forms modulo unit quaternions"),
+    "C10": dict(text="real voigt_averages on real Mineral objects with symbolic textures for all six assemblage/mineral orderings, built-in and fully symbolic stiffnesses: equals the phase-identity-indexed weighted sum of rotated tensors, symmetric, texture-independent K and shear invariants, co-rotation (axis generators), aligned grain, rejection of mismatched counts (symbolic ints).",
+                note="exact reals; 1-2 grains, 1-2 snapshots; general-Q co-rotation by composition with C11's group action",
+                tech="symbolic execution of real source + SMT (z3), polynomial normal forms"),
+    "C13": dict(text="real _scatter_matrix / symmetry_pgr / bingham_average / coaxial_index / finite_strain / angle_fse_simpleshear on symbolic textures (2-3 grains, all unit quaternions) and deformation gradients with LAPACK eigh/eigvalsh replaced by its contract: row selection, PSD, permutation / two-fold / frame covariance, P,G,R in [0,1] summing to 1 with descending order, Bingham = last eigenvector column, BA in [0,1], left Cauchy-Green tensor and its covariance, simple-shear angle.",
+                note="exact reals; eigen-decomposition by contract (S V = V diag(l), V orthogonal, ascending); N <= 3",
+                tech="symbolic execution of real source + SMT (z3), eigen-decomposition contract stub, polynomial normal forms"),
+    "C15": dict(text="real resample_orientations with the RNG replaced by arbitrary variates in [0,1): all paths (volume orders x search positions) for M <= 3 grains: every output pair is one input grain's pair, zero-volume grains never drawn, the variate lies in the drawn grain's cumulative-volume interval (probability = volume), shapes, seed plumbing; shape validation with symbolic extents for 3-5-d / 1-3-d inputs.",
+                note="exact reals; M <= 3 (4 thorough), n_samples <= 2; convergence of sample statistics outside the claim",
+                tech="symbolic execution of real source + SMT (z3), nondeterministic RNG stub, symbolic integer shapes"),
+    "C20": dict(text="real to_spherical/to_cartesian round trip and colatitude convention under trig contracts; poles for all six reference-axes strings (2 grains, symbolic hkl); Lambert projection (masked-array path forked); point_density for the five kernels on a 3x3 grid with 2 symbolic data: normalisation, clipping, grid in disk, order and sign invariance.",
+                note="exact reals; trig/exp by contract; gridsteps = 3, 2 data; non-zero raw grid mean assumed",
+                tech="symbolic execution of real source + SMT (z3), trig contracts, polynomial normal forms"),
     "C11": dict(text="every function of pydrex/tensors.py on fully symbolic inputs (36/21 free entries, all 81 index tuples, R(q) over all unit quaternions): index maps, symmetries, contractions, inverse maps, isometry, rotation law, projector algebra, characteristic polynomial, polar decomposition under the SVD contract.",
                 note="exact reals; sqrt(2) algebraic; numpy.linalg.svd/det/inv by contract; identities over two unit quaternions are normalised modulo |q|^2 = 1 before the query (normaliser validated at random rational points on every use)",
                 tech="symbolic execution of real source + SMT (z3), polynomial normal forms modulo unit-quaternion equalities"),
